@@ -138,6 +138,8 @@ def machine : Machine M T where
         | none => (st, "bad-op")
     | .bad => (st, "bad-case")
   spec t args outs :=
+    -- a panic of the real code is an output, and a violation (the iterators never panic)
+    if outs.head? = some "panic" then (t, "FAIL:panic") else
     match t with
     | .closest m =>
       match parseClosestOp args, outs with
